@@ -65,6 +65,10 @@ func ID(lo, hi uint64) uuid.UUID {
 
 func Addr(node uint64) string { return fmt.Sprintf("passthrough:///n%d", node) }
 
+// Lacks, when set, names nodes whose catalogue does not contain the dataset (a replica that has
+// not applied the create entry yet). Reset by the caller.
+var Lacks func(node uint64) bool
+
 // DNode is one simulated node holding one dataset object.
 type DNode struct {
 	ID   uint64
@@ -107,7 +111,9 @@ func NewDatasetCluster(nNodes int, dim uint32, space pb.Space, placement [][]uin
 		if err != nil {
 			panic(err)
 		}
-		dm.VerifPutDataset(ds)
+		if Lacks == nil || !Lacks(id) {
+			dm.VerifPutDataset(ds)
+		}
 		fakes.Registry[Addr(id)] = &fakes.Node{Search: services.NewSearchServer(dm), Data: services.NewDataManagerServer(dm), Datasets: services.NewDatasetManagerServer(dm)}
 		c.Nodes = append(c.Nodes, &DNode{ID: id, Conn: conn, DM: dm, DS: ds})
 	}
